@@ -1185,6 +1185,32 @@ def _m_get(I, b, a, kw, node):
     raise EngineLimit("dict.get")
 
 
+@ext("dict.setdefault")
+def _m_dsetdefault(I, b, a, kw, node):
+    key = a[0]
+    default = a[1] if len(a) > 1 else None
+    if isinstance(b, PyDict):
+        if is_sym(key) or (isinstance(key, tuple) and any(is_sym(k) for k in key)) or b.sym:
+            for k in b.d:
+                t = _eq_term(I, key, k)
+                if t is True or (t is not False and I.ctx.branch(t)):
+                    return b.d[k]
+            for ent in b.sym:
+                t = _eq_term(I, key, ent[0])
+                if t is True or (t is not False and I.ctx.branch(t)):
+                    return ent[1]
+            setitem(I, b, key, default, node)
+            return default
+        check_hashable_concrete(key)
+        if key in b.d:
+            return b.d[key]
+        if not b.fresh:
+            I.ctx.writes.append(("dict", b))
+        b.d[key] = default
+        return default
+    raise EngineLimit("dict.setdefault on a symbolic dict")
+
+
 @ext("dict.pop")
 def _m_dpop(I, b, a, kw, node):
     key = a[0]
